@@ -153,7 +153,8 @@ def gen_cases(tier, rng):
                 if outer in ANY_REAL_HOLE:
                     add(group='valid', host=inner, wrap='host:' + outer, fault='none', entry=entry, db='plain', expect='number')
     # declared (non-default) missing-data code
-    for name, expect in [('declared_code_read_likelihood', 'exception'), ('default_code_harmless_when_other_declared', 'value'),
+    for name, expect in [('declared_fractional_code_read_likelihood', 'exception'), ('value_next_to_a_fractional_code_harmless', 'value'),
+                         ('declared_code_read_likelihood', 'exception'), ('default_code_harmless_when_other_declared', 'value'),
                          ('declared_code_unread_column', 'value'), ('declared_code_weight_default_code_harmless', 'value'),
                          ('declared_code_read_expression_after_construction', 'exception'),
                          ('declared_code_read_simulate', 'exception_or_nan'), ('declared_code_simulate_default_harmless', 'value'),
@@ -560,6 +561,12 @@ def execute(case):
         def run():
             d = db.Database('c12', df)
             x, m, neg = Variable('x'), Variable('m'), Variable('neg')
+            if f in ('declared_fractional_code_read_likelihood', 'value_next_to_a_fractional_code_harmless'):
+                # a declared code that is not an integer (-99.5): the row holding it is refused; a genuine value equal to the
+                # code cut to an integer (-99) is an ordinary number
+                d.data['frac'] = [1.0, -99.5 if f.startswith('declared') else -99.0, 2.0, 1.0]
+                bg = BIOGEME(d, x + Variable('frac'), parameters=params(-99.5))
+                return bg.calculate_likelihood([], scaled=False)
             if f == 'declared_code_read_likelihood':
                 bg = BIOGEME(d, x + neg, parameters=params(-1))
                 return bg.calculate_likelihood([], scaled=False)
@@ -592,7 +599,8 @@ def execute(case):
                 return bg.simulate({})['v'].sum()
             raise ValueError(f)
         out = outcome(run)
-        want = {'default_code_harmless_when_other_declared': float((df['x'] + df['m']).sum()),
+        want = {'value_next_to_a_fractional_code_harmless': float(df['x'].sum() + 1.0 - 99.0 + 2.0 + 1.0),
+                'default_code_harmless_when_other_declared': float((df['x'] + df['m']).sum()),
                 'declared_code_simulate_default_harmless': float((df['x'] + df['m']).sum()),
                 'declared_code_unread_column': float((df['x'] + df['y']).sum()),
                 'declared_code_weight_default_code_harmless': float((df['wm'] * (df['x'] + df['y'])).sum())}
